@@ -103,14 +103,25 @@ def vNameAll (rd : List UInt8) : Bool := (Wire.validateUncompressed rd.toArray t
     (lean/QV/Model/Rdata.lean, dispatching through the generated table `Gen.rdataValidateArms`) -/
 def validate (cls ty : Nat) (rd : List UInt8) : Out Rdata.RErr Unit := Rdata.validate cls ty rd.toArray
 
-/-- `serialize_in_wks`: address, protocol, then a bitmap of `max(ports)/8 + 1` octets -/
-def newInWks (addr : List UInt8) (proto : Nat) (ports : List Nat) : List UInt8 :=
+/-- the mask `serialize_in_wks` ors into octet `p / 8` for port `p`: `1 << (p % 8)` or, with
+    `msb`, `0x80 >> (p % 8)` -/
+def wksMask (msb : Bool) (p : Nat) : UInt8 :=
+  if msb then 0x80 >>> UInt8.ofNat (p % 8) else 1 <<< UInt8.ofNat (p % 8)
+
+/-- `serialize_in_wks`: address, protocol, then a bitmap of `max(ports)/8 + 1` octets; the bit
+    order inside an octet is a parameter (the repository's is `Gen.wksMaskMsbFirst`) -/
+def newInWksWith (msb : Bool) (addr : List UInt8) (proto : Nat) (ports : List Nat) : List UInt8 :=
   let len := match ports.foldl (fun (m : Option Nat) p => some (match m with | some x => max x p | none => p)) none with
     | some hi => hi / 8 + 1
     | none => 0
-  let bm := ports.foldl (fun (a : Array UInt8) p => a.modify (p / 8) (fun b => b ||| (1 <<< UInt8.ofNat (p % 8))))
+  let bm := ports.foldl (fun (a : Array UInt8) p => a.modify (p / 8) (fun b => b ||| wksMask msb p))
               (Array.replicate len 0)
   addr ++ UInt8.ofNat proto :: bm.toList
+
+/-- `serialize_in_wks` as the repository under test has it (the extractor reads the mask
+    expression; `false` = `1 << (port % 8)`, known finding D18) -/
+def newInWks (addr : List UInt8) (proto : Nat) (ports : List Nat) : List UInt8 :=
+  newInWksWith Gen.wksMaskMsbFirst addr proto ports
 
 /-! ### TTL, class, type (record.rs `parse_ttl_and_class`, `parse_type`) -/
 
